@@ -254,6 +254,40 @@ theorem C14_reuse_repeat (s s₁ : St) (o : Own) (prod : Bool) (a : Nat)
   rw [h4]
   cases prod <;> simp_all
 
+/-- **C14 (reuse), after a failed attempt.**  A create request of a container the service did not
+    know, answered with an error (`svcCreateCut`: the veth creation failed, or the pool had no address
+    left), either changed nothing, or left exactly one new address linked to the requester - and then the
+    same request sent again gets exactly that address (or fails on the environment mark) and allocates
+    nothing. -/
+theorem C14_reuse_after_cut (s s₁ : St) (o : Own) (prod : Bool)
+    (hnew : devLookup o s.devs = none) (h : svcCreateCut s o (some prod) = (s₁, .exc)) :
+    s₁ = s ∨
+    ∃ a, lookup (.svip a) s.links = none ∧ s₁.links = s.links ++ [(.svip a, .own o)] ∧
+      (svcCreate s₁ o (some prod)).1.links = s₁.links ∧
+      ((svcCreate s₁ o (some prod)).2 = .ip a ∨ (svcCreate s₁ o (some prod)).2 = .exc) := by
+  unfold svcCreateCut at h
+  simp only at h
+  rcases svcAddr_spec s o with ⟨a, e1, _, e3, _⟩ | ⟨d, a, _, e2, _⟩ | ⟨r, e1, hr⟩
+  · rw [e1] at h
+    simp only [Bool.false_eq_true, ↓reduceIte, Prod.mk.injEq, and_true] at h
+    subst h
+    refine Or.inr ⟨a, e3, rfl, ?_⟩
+    exact C14_reuse _ o prod { ip := some a, hasDev := false, env := none, stale := false } a
+      (by simp only; exact devLookup_devSet o _ s.devs) rfl
+  · rw [hnew] at e2; cases e2
+  · rw [e1] at h
+    simp only [Prod.mk.injEq] at h
+    exact Or.inl h.1.symm
+
+/-- The hypotheses of `C14_reuse_after_cut` are met with the second alternative: on the empty service a
+    failed first request leaves one address linked, and the retry returns it. -/
+example : (svcCreateCut St.init 1 (some true)).2 = .exc ∧
+    (svcCreateCut St.init 1 (some true)).1.links.length = 1 ∧
+    (svcCreate (svcCreateCut St.init 1 (some true)).1 1 (some true)).1.links =
+      (svcCreateCut St.init 1 (some true)).1.links ∧
+    (svcCreate (svcCreateCut St.init 1 (some true)).1 1 (some true)).2 = .ip 3232235521 := by
+  refine ⟨by decide +kernel, by decide +kernel, by decide +kernel, by decide +kernel⟩
+
 /-! ### Non-vacuity
 
   Three owners on 10.0.0.0/29 (167772160/29); name 100 is an instance name.  The history stays
